@@ -66,6 +66,16 @@ def step0 (st : St) (toks : List String) : St × String :=
     | some n => (upd st (.setThr n), "ok")
     | none => (st, "bad-op")
   | "cfg" :: _ => (st, "ok")
+  -- `discriminate()` raises before the index looks at its own state: a Persistent / Broken value is a ValueError,
+  -- an exception of the user's discriminator (or attribute) propagates; nothing changes
+  | ["index", d, "P"] | ["index", d, "B"] =>
+    match d.toInt? with
+    | some _ => (st, "err ValueError")
+    | none => (st, "bad-op")
+  | ["index", d, "R"] =>
+    match d.toInt? with
+    | some _ => (st, "err RuntimeError")
+    | none => (st, "bad-op")
   | ["index", d, "none"] =>
     match d.toInt? with
     | some d => (upd st (.index d none), "ok")
